@@ -61,3 +61,8 @@ typed1("str")
 ---@type NoSuchType1
 local badAnno1 = 1
 print(badAnno1)
+---@param
+local function malformedAnno1(q1)
+  return q1
+end
+print(malformedAnno1(1))
